@@ -161,8 +161,18 @@ def rule_gzip_only(prog, fixture=False):
                         cs = g.cmps(x) or []
                         ts = g.truths(x) or []
                         buf = any(rel == "==" and -5 in (folded(l), folded(rr)) for l, rel, rr in cs)
-                        more = any(truth for atom, truth in ts)
-                        if not (buf and more):
+                        more = any(truth for atom, truth in ts) or \
+                            any(rel in ("!=", ">") and 0 in (folded(l), folded(rr)) and
+                                (strip_all(l) or {}).get("k") == "DeclRefExpr" for l, rel, rr in cs)
+                        # the ordinary end of the inner loop: the output buffer was not filled (nothing more to drain)
+                        drained = any(rel in ("!=", ">") and 0 in (folded(l), folded(rr)) and
+                                      any(y.get("k") == "MemberExpr" and y.get("n") == "avail_out" for y in walk(l) ) or
+                                      rel in ("!=", "<") and 0 in (folded(l), folded(rr)) and
+                                      any(y.get("k") == "MemberExpr" and y.get("n") == "avail_out" for y in walk(rr))
+                                      for l, rel, rr in cs) or \
+                            any(truth and any(y.get("k") == "MemberExpr" and y.get("n") == "avail_out" for y in walk(atom))
+                                for atom, truth in ts)
+                        if not (buf and more) and not drained:
                             probs.append("the inner loop is left early other than for `Z_BUF_ERROR with input still arriving` (%s)" % fn.loc(x))
             r.add(key, fn.loc(outer), not probs, "normal exit only at Z_STREAM_END" if not probs else "; ".join(probs))
     return r
